@@ -103,6 +103,26 @@ fn de_str(r: &Result<Result<Value, &'static str>, ()>) -> String {
     }
 }
 
+/// number of nodes of a schema plus the bytes of its field / variant names
+fn schema_weight(s: &O) -> usize {
+    fn data(d: &OwnedData) -> usize {
+        match d {
+            OwnedData::Unit => 1,
+            OwnedData::Newtype(t) => schema_weight(t),
+            OwnedData::Tuple(ts) => 1 + ts.iter().map(schema_weight).sum::<usize>(),
+            OwnedData::Struct(fs) => 1 + fs.iter().map(|f| 1 + f.name.len() / 16 + schema_weight(&f.ty)).sum::<usize>(),
+        }
+    }
+    match s {
+        O::Option(t) | O::Seq(t) => 1 + schema_weight(t),
+        O::Tuple(ts) => 1 + ts.iter().map(schema_weight).sum::<usize>(),
+        O::Map { key, val } => 1 + schema_weight(key) + schema_weight(val),
+        O::Struct { data: d, .. } => 1 + data(d),
+        O::Enum { variants, .. } => 1 + variants.iter().map(|v| 1 + v.name.len() / 16 + data(&v.data)).max().unwrap_or(0),
+        _ => 1,
+    }
+}
+
 /// can a value of this kind have the JSON form `null` (so that Option over it is ambiguous)?
 fn null_hazard(s: &O) -> bool {
     match s {
@@ -305,8 +325,13 @@ pub fn eval(ctx: &mut Ctx, op: &str, args: &[Sexp]) -> Option<String> {
             if b.is_err() {
                 ctx.oracle_fail("dynamic decoding panicked".into());
             }
-            // a serde_json::Value is 32 bytes; Vec growth doubles; strings/keys copy input bytes
-            if used > 4096 + 512 * bytes.len() {
+            // a serde_json::Value is 32 bytes; Vec growth doubles; strings/keys copy input bytes; every struct /
+            // variant level of the SCHEMA costs one map node and its field names whatever the input holds:
+            // a constant that depends on the schema only, plus a constant multiple of the input length
+            // (the enum arms also CLONE the variant's sub-schema before recursing: for nested enums that is
+            // quadratic in the schema size — still a constant of the schema, independent of the input)
+            let sw = schema_weight(&s);
+            if used > 4096 + 512 * bytes.len() + 768 * sw + 64 * sw * sw {
                 let what = format!("decoding {} input bytes allocated {} bytes", bytes.len(), used);
                 if has_zero_width_seq(&s) {
                     ctx.oracle_fail(format!("finding:dyn-seq-zero-width-alloc {}", what));
@@ -314,7 +339,7 @@ pub fn eval(ctx: &mut Ctx, op: &str, args: &[Sexp]) -> Option<String> {
                     ctx.oracle_fail(what);
                 }
             }
-            Some(format!("{} used={}", de_str(&b), used))
+            Some(format!("{} used={} sw={}", de_str(&b), used, sw))
         }
         _ => None,
     }
@@ -372,6 +397,12 @@ pub fn gen_json(r: &mut Rng, depth: u32) -> Value {
 }
 
 /// a JSON value of the right shape for the schema (type-correct), with occasional near misses
+thread_local! {
+    static FORCE_VARIANT: std::cell::Cell<Option<usize>> = const { std::cell::Cell::new(None) };
+    /// deep chains: exactly one element per sequence / map level (a random fan-out would be exponential)
+    static SINGLETONS: std::cell::Cell<bool> = const { std::cell::Cell::new(false) };
+}
+
 pub fn gen_json_for(r: &mut Rng, s: &O, miss: bool) -> Value {
     if miss && r.chance(1, 12) {
         return gen_json(r, 1);
@@ -407,11 +438,15 @@ pub fn gen_json_for(r: &mut Rng, s: &O, miss: bool) -> Value {
         O::ByteArray => Value::Array((0..r.below(5)).map(|_| Value::Number(Number::from(r.below(if miss { 300 } else { 256 })))).collect()),
         O::Option(t) => if r.chance(1, 3) { Value::Null } else { gen_json_for(r, t, miss) },
         O::Unit => Value::Null,
-        O::Seq(t) => Value::Array((0..r.below(4)).map(|_| gen_json_for(r, t, miss)).collect()),
+        O::Seq(t) => {
+            let n = if SINGLETONS.with(|c| c.get()) { 1 } else { r.below(4) };
+            Value::Array((0..n).map(|_| gen_json_for(r, t, miss)).collect())
+        }
         O::Tuple(ts) => Value::Array(ts.iter().map(|t| gen_json_for(r, t, miss)).collect()),
         O::Map { val, .. } => {
             let mut m = Map::new();
-            for _ in 0..r.below(4) {
+            let n = if SINGLETONS.with(|c| c.get()) { 1 } else { r.below(4) };
+            for _ in 0..n {
                 m.insert(crate::schema::gen_name(r), gen_json_for(r, val, miss));
             }
             Value::Object(m)
@@ -421,7 +456,9 @@ pub fn gen_json_for(r: &mut Rng, s: &O, miss: bool) -> Value {
             if variants.is_empty() {
                 return Value::Null;
             }
-            let v = &variants[r.below(variants.len() as u64) as usize];
+            // FORCE_VARIANT (set by the generator for wide enums) picks the variant instead of the PRNG
+            let forced = FORCE_VARIANT.with(|c| c.take());
+            let v = &variants[forced.filter(|i| *i < variants.len()).unwrap_or_else(|| r.below(variants.len() as u64) as usize)];
             match &v.data {
                 OwnedData::Unit => Value::String(v.name.to_string()),
                 d => {
@@ -546,6 +583,38 @@ pub fn gen_c18(r: &mut Rng, thorough: bool, out: &mut Vec<String>) {
             let mut big = vec![0xFF, 0xFF, 0xFF, 0xFF, 0xFF, 0xFF, 0xFF, 0xFF, 0xFF, 0x01];
             big.extend(r.bytes(3));
             out.push(format!("dynde {} {}", show(&s), hex(&big)));
+        }
+    }
+    // schemas at scale: deep chains, wide tuples / structs, enums with hundreds of variants (every variant
+    // index around 127/128 and 255/256 and the last), long sequences with many nulls
+    let mut scaled = crate::schema::scale_schemas(r, if thorough { 300 } else { 257 }, if thorough { 513 } else { 300 });
+    scaled.push(O::Seq(Box::new(O::Option(Box::new(O::U8)))));
+    scaled.push(O::Seq(Box::new(O::Option(Box::new(O::String)))));
+    for s in scaled {
+        let mut picks: Vec<Option<usize>> = vec![None];
+        if let O::Enum { variants, .. } = &s {
+            let n = variants.len();
+            picks = [0usize, 1, 126, 127, 128, 129, 130, 254, 255, 256, 257, n.saturating_sub(2), n.saturating_sub(1)].iter().filter(|i| **i < n).map(|i| Some(*i)).collect();
+        }
+        for pick in picks {
+            FORCE_VARIANT.with(|c| c.set(pick));
+            SINGLETONS.with(|c| c.set(true));
+            let mut j = gen_json_for(r, &s, false);
+            SINGLETONS.with(|c| c.set(false));
+            FORCE_VARIANT.with(|c| c.set(None));
+            if let (O::Seq(_), Value::Array(xs)) = (&s, &mut j) {
+                // long sequences, half of the elements null
+                let n = *r.pick(&[127usize, 128, 129, 255, 256, 300, 1025]);
+                let proto = if xs.is_empty() { Value::Null } else { xs[0].clone() };
+                *xs = (0..n).map(|i| if i % 2 == 0 { Value::Null } else { proto.clone() }).collect();
+            }
+            out.push(format!("dynser {} {}", show(&s), show_json(&j)));
+            if let Ok(b) = to_stdvec_dyn(&s, &j) {
+                out.push(format!("dynde {} {}", show(&s), hex(&b)));
+                if !b.is_empty() && !has_zero_width_seq(&s) {
+                    out.push(format!("dynde {} {}", show(&s), hex(&b[..b.len() - 1])));
+                }
+            }
         }
     }
     // the zero-width-element allocation finding, probed explicitly with a modest claim (2^16 elements from 3 bytes)
